@@ -149,6 +149,9 @@ def statusFails (g : Ghost) (what : String) (status : String) (asked n : Nat) : 
      [(what ++ "_progress", "-", s!"byte {g.rp} was received but the call would block")] else []) ++
   (if what == "read" && status == "ok" && n < asked && ivCovers g.recv after then
      [("read_short_only_at_gap", "-", s!"read returned {n} of {asked} bytes although byte {after} was received")] else []) ++
+  -- a reset whose reliable prefix was delivered must be reported, not hidden behind a blocking call
+  (if status == "wouldblock" && asked > 0 && g.resetCode.isSome && g.rp ≥ g.reliable && !g.localCancelled && !g.shutdown then
+     [(what ++ "_reset_reported", "-", s!"the peer reset the stream (reliable size {g.reliable}), {g.rp} bytes were delivered, but the call would block")] else []) ++
   (if isCancel && status.endsWith ":r" then
      (match g.resetCode with
       | none => [(what ++ "_reset_error_unfounded", "-", "remote cancellation reported without RESET_STREAM")]
